@@ -253,6 +253,50 @@ def run(ctx):
         elif chains_ok:
             ctx.ok(R_strict, {"sanitiser": sp})
 
+    # what a sanitiser joins onto the output directory is the very value whose components it tested: any rewriting between the test
+    # and the join (trim, replace, case folding, lossy conversion, re-assembly from pieces) re-opens what the test closed
+    R_same = ctx.rule("C11.validated-value-is-the-joined-value", "inside a component-checking sanitiser, every value joined/pushed onto a path is a plain view (borrow, Path::new, as_ref, to_path_buf, clone) of the value whose components() were tested", floor=1)
+    VIEW = re.compile(r"(std::path::Path::new|::as_ref|::deref|::borrow|::as_path|::to_path_buf|::clone|::to_owned|::as_os_str|::into|::from|::as_str)$")
+    for sp in sorted(san_fns):
+        sf = cli.fns.get(sp) or mpq.fns.get(sp)
+        if sf is None or not sf.mir or "security::" in sp:
+            continue
+        du_s = mirg.DefUse(sf)
+
+        def roots_(l_):
+            out_, st_ = set(), [l_]
+            while st_:
+                x_ = st_.pop()
+                if x_ is None or x_ in out_:
+                    continue
+                out_.add(x_)
+                for _b, k_, p_ in du_s.defs.get(x_, []):
+                    if k_ == "assign" and p_[2][0] in ("use", "cast", "ref", "refmut", "rawptr"):
+                        for o_ in mirg.rvalue_operands(p_[2]):
+                            st_.append(mirg.op_local(o_))
+                    elif k_ == "call" and VIEW.search(ncallee(p_) or "") and p_["a"]:
+                        st_.append(mirg.op_local(p_["a"][0]))
+            return out_
+        tested = set()
+        for bb, t in mirg.iter_calls(sf):
+            if (ncallee(t) or "").endswith("path::Path::components") and t["a"]:
+                tested |= roots_(mirg.op_local(t["a"][0]))
+        joins = [(bb, t) for bb, t in mirg.iter_calls(sf) if re.search(r"path::(Path::join|PathBuf::push)$", ncallee(t) or "") and len(t["a"]) >= 2]
+        for cl_ in sf.closures:
+            joins += [(bb, t) for bb, t in mirg.iter_calls(cl_) if re.search(r"path::(Path::join|PathBuf::push)$", ncallee(t) or "") and len(t["a"]) >= 2]
+        if not tested or not joins:
+            continue
+        for bb, t in joins:
+            own = sf if any(t is t2 for _b, t2 in mirg.iter_calls(sf)) else None
+            if own is None:
+                ctx.bad(R_same, "%s|joined-in-closure" % sp, "%s:%d" % (sf.file, t["ln"]), "a path is assembled piecewise inside a closure of the sanitiser", "the joined pieces are not the tested value")
+                continue
+            if roots_(mirg.op_local(t["a"][1])) & tested:
+                ctx.ok(R_same, {"sanitiser": sp, "join_line": t["ln"]})
+            else:
+                ctx.bad(R_same, "%s|rewritten-after-test" % sp, "%s:%d" % (sf.file, t["ln"]), "the value joined at line %d is not a plain view of the value whose components were tested" % t["ln"],
+                        "a component that passes the test as an ordinary name (e.g. `.. ` with a trailing blank) becomes `..` after the rewrite: the file is written outside the output directory")
+
     ef = cli.fns.get("warcraft_rs::commands::mpq::extract_files_with_options")
     if ef is None:
         ctx.bad(R_cover, "extract_files_with_options|missing", "-", "extraction function not found", "anchor gone")
